@@ -240,7 +240,7 @@ class C19(vlib.PropertyCheck):
     def extra_steps(self, ctx):
         """second build without sanitizers (glibc realloc/malloc behaviour instead of ASan's always-moving allocator):
         same interposers, same cases as the main run"""
-        path = os.path.join(vlib.BUILD, 'work', 'c19', 'cases-main.txt')
+        path = os.path.join(vlib.BUILD, 'work', 'c19', 'cases-main-%d.txt' % vlib.os.getpid())
         if not os.path.exists(path) or not ctx.get('model_exe'):
             return []
         with open(path) as f:
